@@ -58,7 +58,7 @@ package system
 //@ site return assert itercalls("tick") == 1
 // every tick runs on a clock reading taken in the same iteration (C04: the kernel's notion of now is the wall
 // clock at the time of the tick, not a reading kept from an earlier wake-up)
-//@ site call Tick assert [C04 C12 C07 C09] itercalls("time_now") == 1 && t == unixmilli(iterres("time_now", 0))
+//@ site call Tick assert [C03 C04 C07 C09 C10 C12 C14] itercalls("time_now") == 1 && t == unixmilli(iterres("time_now", 0))
 
 // The kernel is done only when the api reports done (shutdown requested, nothing queued) AND no coroutine is
 // still running (C12: requests already accepted are completed and answered before the server stops).
